@@ -418,12 +418,14 @@ class BaseCollection(BaseDisplayRepr):
             recursive=False,
             typechecks=True,
         )
-        self_objects = check_format_input_obj(
-            self,
-            allow="sensors+sources+collections",
-            recursive=recursive,
-        )
         for child in remove_objects:
+            # look up the current tree for every child: removing a collection also takes
+            # its children out of this tree
+            self_objects = check_format_input_obj(
+                self,
+                allow="sensors+sources+collections",
+                recursive=recursive,
+            )
             if child in self_objects:
                 rec_obj_remover(self, child)
                 child._parent = None
